@@ -45,6 +45,7 @@ fn gen_list(rng: &mut Rng, own: &[String], foreign: &[String]) -> (Vec<String>, 
 }
 
 pub fn run_case(ctx: &mut Ctx, case: &Value) {
+    crate::real::set_current(case);
     ctx.report.evaluations += 1;
     let ic = match issue_any(ctx, case) {
         Some(ic) => ic,
@@ -74,6 +75,7 @@ pub fn run_case(ctx: &mut Ctx, case: &Value) {
         ctx.report.bump(&format!("list:{}", label));
         let mut c2 = case.clone();
         c2["lists"] = json!([l]);
+        real::set_current(&c2);
         // which own disclosures are presented, and which of those have all enclosing ones presented
         let present: Vec<usize> = ic.marks.iter().filter(|m| l.contains(&ic.disc_of(m.id))).map(|m| m.id).collect();
         let closure: Vec<usize> = ic.marks.iter().filter(|m| present.contains(&m.id) && m.ancestors.iter().all(|a| present.contains(a))).map(|m| m.id).collect();
